@@ -531,3 +531,85 @@ func specPreorderAll(roots []*Node, i int) []*Node {
 //@ func gtree.WalkerNode.Path
 //@   requires nn: wn != nil && wn.origin != nil
 //@   ensures path [C05]: result == (wn.origin.hierarchy == 1 ? wn.origin.name : wn.origin.brnch.path)
+
+// ---------------------------------------------------------------------------------------------
+// simple_tree.go
+
+// simpleTreeOK(t, cfg): t is the treeSimple that newTreeSimple builds for cfg.
+//@ pred simpleTreeOK(t *treeSimple, cfg *config): t != nil && cfg != nil && t.grower != nil && t.spreader != nil && t.growSpreader != nil && t.walker != nil && t.mkdirer != nil && t.verifier != nil && (cfg.encode != encodeDefault ==> isType(t.grower, nopGrowerSimple)) && (cfg.encode == encodeDefault ==> isType(t.grower, defaultGrowerSimple) && as(t.grower, defaultGrowerSimple).lastNodeFormat == cfg.lastNodeFormat && as(t.grower, defaultGrowerSimple).intermedialNodeFormat == cfg.intermedialNodeFormat) && (cfg.dryrun ==> isType(t.spreader, colorizeSpreaderSimple)) && (!cfg.dryrun && cfg.encode == encodeDefault ==> isType(t.spreader, defaultSpreaderSimple)) && (!cfg.dryrun && cfg.encode >= encodeJSON && cfg.encode <= encodeTOML ==> isType(t.spreader, formattedSpreaderSimple)) && isType(t.growSpreader, defaultGrowSpreaderSimple) && as(t.growSpreader, defaultGrowSpreaderSimple).defaultGrowerSimple != nil && as(t.growSpreader, defaultGrowSpreaderSimple).defaultGrowerSimple.lastNodeFormat == cfg.lastNodeFormat && as(t.growSpreader, defaultGrowSpreaderSimple).defaultGrowerSimple.intermedialNodeFormat == cfg.intermedialNodeFormat && !as(t.growSpreader, defaultGrowSpreaderSimple).defaultGrowerSimple.enabledValidation && isType(t.walker, defaultWalkerSimple) && isType(t.mkdirer, defaultMkdirerSimple) && isType(t.verifier, defaultVerifierSimple)
+
+//@ func gtree.newTreeSimple
+//@   requires nn: cfg != nil
+//@   ensures tree [C01,C03,C04,C09]: result != nil && isType(result, treeSimple) && fresh(result) && simpleTreeOK(as(result, treeSimple), cfg)
+//@   ensures dry [C07,C09]: cfg.encode == encodeDefault ==> as(as(result, treeSimple).grower, defaultGrowerSimple).enabledValidation == cfg.dryrun
+
+// Placeholders (assumed, not yet verified): refined by the C04 / C09 contracts.
+//@ func gtree.colorizeSpreaderSimple.spread
+//@   assumed
+//@   modifies out, wfail, counter.n
+//@   ensures sticky: old(wfail) ==> wfail
+//@ func gtree.formattedSpreaderSimple.spread
+//@   assumed
+//@   modifies out, wfail
+//@   ensures sticky: old(wfail) ==> wfail
+
+//@ func gtree.treeSimple.outputProgrammably
+//@   requires ok: simpleTreeOK(t, cfg) && root != nil && root.hierarchy == 1
+//@   modifies Node.brnch.value, Node.brnch.path, out, wfail, defaultGrowSpreaderSimple.w, defaultSpreaderSimple.w, counter.n
+//@   ensures render [C03,C13]: cfg.encode == encodeDefault && result == nil && !wfail ==> out[w] == old(out[w]) ++ specRender(cfg.lastNodeFormat, cfg.intermedialNodeFormat, root)
+//@   ensures text [C03]: cfg.encode == encodeDefault ==> result == nil
+//@   ensures frame: cfg.encode == encodeDefault ==> (forall v any :: {out[v]} v != w ==> out[v] == old(out[v]))
+//@   ensures sticky [C14]: old(wfail) ==> wfail
+
+//@ func gtree.treeSimple.walkProgrammably
+//@   param callback follows walkCallback
+//@   requires ok: simpleTreeOK(t, cfg) && root != nil && root.hierarchy == 1
+//@   requires live: !cbFailed
+//@   modifies Node.brnch.value, Node.brnch.path, cbTrace, cbFailed, cbLastErr
+//@   ensures all [C05,C03]: result == nil ==> !cbFailed && cbTrace == old(cbTrace) ++ specPreorder(root)
+//@   ensures grown [C05]: cfg.encode == encodeDefault && (result == nil || cbFailed) ==> grown(cfg.lastNodeFormat, cfg.intermedialNodeFormat, root)
+//@   ensures stop [C05]: cbFailed ==> result == cbLastErr && result != nil
+//@   ensures nocb [C05]: !cbFailed && result != nil ==> cbTrace == old(cbTrace)
+
+// ---------------------------------------------------------------------------------------------
+// config.go, tree.go, tree_handler_programmably.go: entry points
+
+// newConfig applies caller-supplied option closures in a loop; function values of unknown origin are outside
+// the verified subset, so its contract is assumed (the With* constructors are one-assignment closures).
+//@ func gtree.newConfig
+//@   assumed
+//@   ensures cfg: fresh(result)
+
+//@ func gtree.newTreePipeline
+//@   assumed
+//@   ensures pipeline: result != nil && isType(result, treePipeline)
+
+//@ func gtree.initializeTree
+//@   requires nn: cfg != nil
+//@   ensures simple [C01,C03]: !cfg.massive ==> isType(result, treeSimple) && simpleTreeOK(as(result, treeSimple), cfg)
+//@   ensures massive: cfg.massive ==> isType(result, treePipeline)
+//@   ensures nn: result != nil
+
+// The massive (pipeline) implementations are not under contract (C10, C11 are not applicable to this technique).
+//@ func gtree.treePipeline.outputProgrammably
+//@   assumed
+//@   modifies Node.brnch.value, Node.brnch.path, out, wfail, defaultGrowSpreaderSimple.w, defaultSpreaderSimple.w, counter.n
+//@ func gtree.treePipeline.walkProgrammably
+//@   assumed
+//@   modifies Node.brnch.value, Node.brnch.path, cbTrace, cbFailed, cbLastErr
+
+//@ contract fromRootOutput
+//@   modifies Node.brnch.value, Node.brnch.path, out, wfail, defaultGrowSpreaderSimple.w, defaultSpreaderSimple.w, counter.n
+//@   ensures nilnode [C03]: root == nil ==> result == ErrNilNode && out == old(out) && wfail == old(wfail)
+//@   ensures notroot [C03]: root != nil && root.hierarchy != 1 ==> result == ErrNotRoot && out == old(out) && wfail == old(wfail)
+//@   ensures render [C03,C13]: root != nil && root.hierarchy == 1 ==> (exists c *config :: {c.massive} fresh(c) && (!c.massive && c.encode == encodeDefault ==> result == nil && (!wfail ==> out[w] == old(out[w]) ++ specRender(c.lastNodeFormat, c.intermedialNodeFormat, root))))
+//@ applies fromRootOutput to gtree.OutputFromRoot, gtree.OutputProgrammably
+
+//@ contract fromRootWalk
+//@   param callback follows walkCallback
+//@   requires live: !cbFailed
+//@   modifies Node.brnch.value, Node.brnch.path, cbTrace, cbFailed, cbLastErr, counter.n
+//@   ensures nilnode [C03]: root == nil ==> result == ErrNilNode && cbTrace == old(cbTrace)
+//@   ensures notroot [C03]: root != nil && root.hierarchy != 1 ==> result == ErrNotRoot && cbTrace == old(cbTrace)
+//@   ensures walk [C03,C05,C13]: root != nil && root.hierarchy == 1 ==> (exists c *config :: {c.massive} fresh(c) && (!c.massive ==> (result == nil ==> !cbFailed && cbTrace == old(cbTrace) ++ specPreorder(root)) && (cbFailed ==> result == cbLastErr && result != nil) && (c.encode == encodeDefault && (result == nil || cbFailed) ==> grown(c.lastNodeFormat, c.intermedialNodeFormat, root))))
+//@ applies fromRootWalk to gtree.WalkFromRoot, gtree.WalkProgrammably
